@@ -363,6 +363,13 @@ func cmdCheck(args []string) {
 	for _, ef := range engineFaults {
 		fmt.Printf("ENGINE-FAULT %s\n", ef)
 	}
+	if os.Getenv("GOVC_SLOW") != "" {
+		for _, o := range all {
+			if o.TimeS > 3 {
+				fmt.Printf("SLOW %.1fs %s %s\n", o.TimeS, o.Solver, o.Name)
+			}
+		}
+	}
 	// bounded stand-ins
 	var boundedEv []map[string]any
 	for _, bs := range cfg.Bounded {
